@@ -402,10 +402,59 @@ func c03History(r *rand.Rand, start map[string]any, nsteps int, script func(step
 		Fail: fail, Nontrivial: len(steps) >= 3 && prefixRelated >= 2}
 }
 
+// two lists created by dom.ListNode(items...) from ONE slice the caller keeps (with spare
+// capacity): they are two lists; an edit of either is not an edit of the other
+func c03SharedSlice(r *rand.Rand) Case {
+	backing := make([]dom.Node, 2, 4)
+	backing[0], backing[1] = dom.LeafNode(1), dom.LeafNode(2)
+	names := []string{"k0", "k1"}
+	script := func(step int, d dom.ContainerBuilder, ref map[string]any, fail *[]string) (c03Step, bool) {
+		if step < 2 {
+			d.AddValue(names[step], dom.ListNode(backing...))
+			ref[names[step]] = []any{1, 2}
+			return c03Step{"AddValue(" + names[step] + ", ListNode(shared...))", "OAddValue " + gStr(names[step]) + " " + gNode([]any{1, 2})}, true
+		}
+		n := names[r.Intn(2)]
+		lb, ok := d.Child(n).(dom.ListBuilder)
+		if !ok {
+			return c03Step{}, false
+		}
+		cur := ref[n].([]any)
+		v := 100*step + r.Intn(50)
+		switch r.Intn(3) {
+		case 0:
+			i := r.Intn(len(cur))
+			lb.MustSet(uint(i), dom.LeafNode(v))
+			nl := append([]any{}, cur...)
+			nl[i] = v
+			ref[n] = nl
+			return c03Step{fmt.Sprintf("%s.MustSet(%d, %v)", n, i, v), fmt.Sprintf("OListMustSet %s %d %s", gStr(n), i, gNode(v))}, true
+		case 1:
+			lb.Append(dom.LeafNode(v))
+			ref[n] = append(append([]any{}, cur...), v)
+			return c03Step{fmt.Sprintf("%s.Append(%v)", n, v), "OListAppend " + gStr(n) + " " + gNode(v)}, true
+		default:
+			i := r.Intn(len(cur) + 2)
+			lb.Set(uint(i), dom.LeafNode(v))
+			nl := append([]any{}, cur...)
+			for len(nl) <= i {
+				nl = append(nl, nil)
+			}
+			nl[i] = v
+			ref[n] = nl
+			return c03Step{fmt.Sprintf("%s.Set(%d, %v)", n, i, v), fmt.Sprintf("OListSet %s %d %s", gStr(n), i, gNode(v))}, true
+		}
+	}
+	c := c03History(r, map[string]any{}, 3+r.Intn(6), script)
+	c.Kind = "history-shared-slice"
+	c.Nontrivial = true
+	return c
+}
+
 func init() {
 	register(&Prop{
 		ID:   "C03",
-		Rule: "histories of 1-40 builder steps (AddValue / AddValueAt / AddContainer / AddList / Remove / RemoveAt / list Set, MustSet (in range), Append, Clear through a handle re-acquired by Lookup / Walk(CompactFn)) over 4 path-safe keys, indices 0-4, chains to depth 2, paths to 3 components, biased towards existing positions; start = empty or generated document; steps that index into an existing non-null non-list node are skipped (outside the property). After EVERY step: AsMap(doc) vs the plain map/slice interpreter (Go) and the DOM read node by node vs the Coq model. Non-trivial: >= 3 steps of which >= 2 use dotted/indexed paths. Distinct by Gallina term.",
+		Rule: "histories of 1-40 builder steps (AddValue / AddValueAt / AddContainer / AddList / Remove / RemoveAt / list Set, MustSet (in range), Append, Clear through a handle re-acquired by Lookup / Walk(CompactFn)) over 4 path-safe keys, indices 0-4, chains to depth 2, paths to 3 components, biased towards existing positions; start = empty or generated document; steps that index into an existing non-null non-list node are skipped (outside the property). After EVERY step: AsMap(doc) vs the plain map/slice interpreter (Go) and the DOM read node by node vs the Coq model. Plus history-shared-slice: two lists made by ListNode(items...) from one slice the caller keeps, then edited independently. Non-trivial: >= 3 steps of which >= 2 use dotted/indexed paths. Distinct by Gallina term.",
 		Corpus: func() []Case {
 			mk := func(start map[string]any, ops ...func(d dom.ContainerBuilder, ref map[string]any) c03Step) Case {
 				return c03History(nil, start, len(ops), func(i int, d dom.ContainerBuilder, ref map[string]any, fail *[]string) (c03Step, bool) {
@@ -438,6 +487,9 @@ func init() {
 			o := defaultOpts()
 			o.keys = c03Keys
 			o.maxDepth = 3
+			if idx%16 == 11 {
+				return c03SharedSlice(r)
+			}
 			start := map[string]any{}
 			if r.Intn(2) == 0 {
 				start = genDoc(r, o)
